@@ -39,6 +39,21 @@ CHECKS = {
          "Every schedule of 3-4 callers arriving on clones while the breaker is (about to be) half-open, with gated trial calls completing ok/err in every order, is executed; for every half-open period in the transition log the inner calls started (not cancelled) must be <= permitted_calls_in_half_open and later arrivals must be rejected at once; from every state the breaker must still be able to admit a call within three wait periods.",
          "Prompt executor; granularity one Future::poll; cancelled trial calls give their slot back (cancellation is outside C09's quantifier and is only used for the not-stranded probe).",
          "4 C09"),
+ "C05": ("seq+svcx", "model_checking",
+         "exhaustive grid of outcome scripts x configurations on the real Retry service, plus explicit-state BFS over schedules of several requests sharing one budget",
+         "Every outcome script over {ok, retryable error, non-retryable error} of length max(1,max_attempts)+1 is run through the real retry layer for max_attempts 0..4 (fixed and per request), four backoff policies, with/without predicate and five budgets; the inner-call log (instants, identities) must satisfy: 1..max(1,max) attempts, nothing after a success or a refused error, result identical to the last inner outcome, gap before retry k >= its backoff, retries <= budget grants. 2-3 requests sharing one budget are explored over all poll/completion/timer schedules with the same oracles in every state.",
+         "The budget is observed through a recording wrapper implementing the public RetryBudget trait; the property's stopping conditions are checked as stated (the check does not demand that a retry happens when it may).",
+         "4 C05"),
+ "C08": ("ilv", "model_checking",
+         "preemption-bounded DFS over atomic-step interleavings of real threads (stateless, CHESS-style) with brute-force linearizability against the real structure",
+         "For token-bucket and AIMD budgets and 7 thread programs of try_withdraw/deposit, every interleaving of the instrumented atomic operations up to 2 preemptions (thorough: unbounded, plus one spurious compare_exchange_weak failure) is executed on real threads; at every scheduling point balance <= max, at quiescence grants*cost + balance <= start + deposits*amount, and (returns, balance, ceiling) must equal some one-at-a-time execution of the same operations on the real structure.",
+         "Sequentially consistent memory; scheduling points are the instrumented atomics (feature verif-hooks). Known finding: AimdBudget's ceiling/token components are separately atomic (recorded, not repaired).",
+         "4 C08"),
+ "C14": ("seq", "exploration",
+         "exhaustive evaluation of a finite input grid against a closed-form reference, plus end-to-end dead-backend loops under virtual time",
+         "Every point of attempts (0..2000/10000 dense, 2^k and 2^k+-1 for k<=63, i32/u32/usize limits) x 7 initial intervals x 5 multipliers x 7 max_interval settings x 4 randomization factors is evaluated under catch_unwind for ExponentialBackoff, ExponentialRandomBackoff (16 draws per point) and every ReconnectPolicy constructor: no panic, non-decreasing in the attempt, equal to initial*multiplier^attempt below the cap and equal to the cap beyond it, jitter within the factor; the default reconnect layer and retry layers run 2-6 virtual hours (200 virtual years uncapped) against an always-failing backend.",
+         "Jitter draws come from the thread RNG (bounds checked on every draw, draws not enumerated).",
+         "4 C14"),
 }
 
 NOT_YET = {}
